@@ -85,6 +85,8 @@ RowExp(tb, r) ==
     THEN [own |-> "none", attrs |-> <<>>, ty |-> "undefined", val |-> [t |-> "none"], beh |-> <<>>]
     ELSE IF r.kind = "thrower"      \* both [[Get]] and [[Set]] are the [[ThrowTypeError]] function object (13.2.3)
     THEN [own |-> "acc", attrs |-> AttrsOf(r), ty |-> "accessor", val |-> [t |-> "acc", get |-> Unlisted, set |-> Unlisted], beh |-> <<>>]
+    ELSE IF r.kind = "unlisted-function"    \* the value is a function object that has no path of its own
+    THEN [own |-> "data", attrs |-> AttrsOf(r), ty |-> "function", val |-> Unlisted, beh |-> BehExp(r)]
     ELSE IF r.kind = "unlisted-object"
     THEN [own |-> "data", attrs |-> AttrsOf(r), ty |-> "object", val |-> Unlisted, beh |-> BehExp(r)]
     ELSE [own |-> "data", attrs |-> AttrsOf(r),
@@ -105,19 +107,13 @@ NamesOf(tb, id) ==
 MissingOf(tb, id) ==
     LET ms == SelectSeq(OwnRows(tb, id), LAMBDA r : r.kind = "missing")
     IN  [k \in 1..Len(ms) |-> ms[k].name]
-(* Object.getOwnPropertyDescriptor (15.2.3.3) answers for every own property.  *)
-(* otto: it panics (a Go panic that leaves Run) on the accessor properties the *)
-(* implementation adds to function objects ("caller") and Error objects        *)
-(* ("stack"): their mode says "data descriptor".                               *)
-ReflectExp(o) ==
-    IF D("D14_gopd_panics_on_internal_accessor") /\ o.mk \in {"function-object", "error-object"} THEN "go-panic" ELSE "ok"
 (* clause 15: "None of the built-in functions described in this clause that   *)
 (* are not constructors shall implement the [[Construct]] internal method";    *)
 (* 11.2.2 step 5: new on such a function throws a TypeError                    *)
 NewExp(o) == IF o.callable /\ ~o.ctor /\ o.grp \in {"lib", "annexB"} THEN "TypeError" ELSE "n/a"
 ObjExp(tb, o) ==
     [ty |-> TypeOfObj(o), new |-> NewExp(o), cls |-> ClassOf(o), proto |-> ProtoOf(o), ext |-> o.ext,
-     missing |-> MissingOf(tb, o.id), enumextra |-> <<>>, reflect |-> ReflectExp(o)]
+     missing |-> MissingOf(tb, o.id), enumextra |-> <<>>, reflect |-> o.reflect]    \* 15.2.3.3: "ok", getOwnPropertyDescriptor answers for every own name
 (* the distinguishing call of a function (or constructor, or callable/regexp   *)
 (* prototype): its result is written in the table                              *)
 CallExp(o) == o.callexp
@@ -156,14 +152,14 @@ RowIssues(tb, r) ==
     {m \in {"owner", "target", "kind", "function-attrs", "constant-attrs", "length-row", "enumerable", "target-kind"} :
         CASE m = "owner" -> r.owner \notin tb.ids
           [] m = "target" -> ~(r.target = "" \/ r.target \in tb.ids)
-          [] m = "kind" -> r.kind \notin {"function", "constant", "constant-object", "length", "value", "object", "element", "absent", "thrower"}
+          [] m = "kind" -> r.kind \notin {"function", "constant", "constant-object", "length", "value", "object", "element", "absent", "thrower", "unlisted-function"}
           \* every function-valued property: {writable, ~enumerable, configurable}, value callable
           [] m = "function-attrs" -> r.kind = "function" /\ ~(AttrsOf(r) = <<"T", "F", "T">> /\ Obj(tb, r.target).callable)
           \* constants, constructor.prototype, function length: {~w, ~e, ~c}
           [] m = "constant-attrs" -> r.kind \in {"constant", "constant-object", "length"} /\ AttrsOf(r) # <<"F", "F", "F">>
           [] m = "length-row" -> r.kind = "length" /\ ~(r.name = "length" /\ r.val.t = "num" /\ r.val.n.c = "int" /\ r.val.n.v >= 0)
           \* nothing the library defines is enumerable; only array elements, string indices, arguments indices are
-          [] m = "enumerable" -> r.kind \notin {"element", "absent"} /\ AttrsOf(r)[2] # "F"
+          [] m = "enumerable" -> r.kind \notin {"element", "absent", "unlisted-function"} /\ AttrsOf(r)[2] # "F"
           [] m = "target-kind" -> (r.kind \in {"function", "object", "constant-object"}) # (r.target # "")}
 ObjIssues(tb, o) ==
     {m \in {"proto", "via", "reach", "fn-length", "ctor-link", "no-prototype", "call", "chain", "forin"} :
